@@ -144,8 +144,13 @@ def _extras(draw, rec, funcs=True, refelem=True, mesh=True):
     rec["refelem"] = []
     rec["mesh"] = []
     if funcs and spaces and draw(st.integers(0, 1)) == 0:
-        chosen = draw(st.lists(st.sampled_from(spaces), min_size=1,
-                               max_size=min(3, len(spaces)), unique=True))
+        # basis functions on ANY_*SPACE_n are not supported by the stub
+        # generator (documented): keep them a minority
+        named = [s for s in spaces if s not in ANY_SPACE + ANY_DSPACE]
+        fpool = spaces if not named or draw(st.integers(0, 5)) == 0 \
+            else named
+        chosen = draw(st.lists(st.sampled_from(fpool), min_size=1,
+                               max_size=min(3, len(fpool)), unique=True))
         for space in chosen:
             ops = draw(st.sampled_from([["gh_basis"], ["gh_diff_basis"],
                                         ["gh_basis", "gh_diff_basis"],
